@@ -3,6 +3,10 @@
 package redis
 
 import (
+	"errors"
+	"net"
+	"strings"
+
 	"github.com/mgtv-tech/redis-GunYu/pkg/redis/client/common"
 )
 
@@ -57,4 +61,42 @@ func VerifSlotAddr(c *Cluster, slot int) string {
 		return n.address
 	}
 	return ""
+}
+
+// VerifUnsent returns the Put positions (index into VerifRoutes) of the commands
+// of a FAILED plain batch that were never written to a socket: the whole batch
+// when a Put was refused (Exec/Dispatch return that error first), and every
+// node-batch whose connection could not even be obtained (node object shut
+// down by a topology refresh, or dial refused). Decided from the batcher's own
+// state, not from timing.
+func VerifUnsent(b common.CmdBatcher) []int {
+	var index []int
+	var batches []nodeBatch
+	var berr error
+	switch t := b.(type) {
+	case *Batch:
+		index, batches, berr = t.index, t.batches, t.err
+	case *batch2:
+		index, batches, berr = t.index, t.batches, t.err
+	default:
+		return nil
+	}
+	var out []int
+	for p, i := range index {
+		if berr != nil || verifNeverConnected(&batches[i]) {
+			out = append(out, p)
+		}
+	}
+	return out
+}
+
+func verifNeverConnected(nb *nodeBatch) bool {
+	if nb.err == nil {
+		return false
+	}
+	var oe *net.OpError
+	if errors.As(nb.err, &oe) && oe.Op == "dial" {
+		return true
+	}
+	return strings.Contains(nb.err.Error(), "getConn: connection has been closed")
 }
